@@ -239,6 +239,9 @@ def transfer (cfg : Config) (c : Nat) (ch : Chain) (m : MsgTransfer) (coreErr : 
   match tokenFromCoin cfg ch m.denom with
   | .error f => .error f
   | .ok token =>
+  -- `token.Denom.ValidateBaseNotHopLike()` (fix 4b2f809)
+  if !hopFreeBase token.base then .error (.err "transfer/3")
+  else
   match validatePacketData ⟨token.path, amount, m.sender, m.receiver, m.memo⟩ with
   | some e => .error (.err e)
   | none =>
@@ -272,6 +275,33 @@ def transfer (cfg : Config) (c : Nat) (ch : Chain) (m : MsgTransfer) (coreErr : 
           | .ok ch' =>
             .ok (ch', ⟨c, transferPort, m.chan, dc, transferPort, did, seq, true,
                       ⟨token.path, amount, m.sender, m.receiver, m.memo⟩⟩)
+
+/-- a `MsgSendPacket` (IBC v2) carrying one ICS-20 payload, signed by `signer`: core `sendPacket`
+    (`coreErr`), then `v2.IBCModule.OnSendPacket`, which requires the payload's sender to be the
+    signer. -/
+def sendPacketV2 (cfg : Config) (c : Nat) (ch : Chain) (signer client : Str) (data : PacketData)
+    (coreErr : Option String) (seq : Nat) : M (Chain × Packet) :=
+  match cfg.decode signer with
+  | none => .error (.err "undefined/1")
+  | some signerAddr =>
+  match cfg.peer c client with
+  | none => .error (.err "clientv2/35")
+  | some (dc, did) =>
+  match coreErr with
+  | some e => .error (.err e)
+  | none =>
+  if !(isValidClientID client && isValidClientID did) then .error (.err "channelv2/2")
+  else match validatePacketData data with
+  | some e => .error (.err e)
+  | none =>
+  match cfg.decode data.sender with
+  | none => .error (.err "undefined/1")
+  | some sender =>
+  if sender ≠ signerAddr then .error (.err "ibc/2")
+  else if (extract data.denom).base.contains '/' then .error (.err "transfer/3")
+  else match sendTransfer cfg c ch transferPort client (extract data.denom) data.amount signerAddr with
+    | .error f => .error f
+    | .ok ch' => .ok (ch', ⟨c, transferPort, client, dc, transferPort, did, seq, true, data⟩)
 
 /-- the acknowledgement bytes handed to `OnAcknowledgementPacket`, by shape -/
 inductive Ack
@@ -352,6 +382,8 @@ inductive Op
   /-- a `MsgTransfer` delivered in a transaction signed by `signer` (`viaTx`), or handed to the msg
       server directly -/
   | transfer (c : Nat) (signer : Str) (viaTx : Bool) (m : MsgTransfer) (coreErr : Option String) (seq : Nat)
+  /-- a v2 `MsgSendPacket` with an ICS-20 payload, signed by `signer` -/
+  | sendV2 (c : Nat) (signer : Str) (client : Str) (data : PacketData) (coreErr : Option String) (seq : Nat)
   | recv (p : Packet)
   | ack (p : Packet) (a : Ack)
   | timeout (p : Packet)
@@ -383,6 +415,10 @@ def step (cfg : Config) (w : World) : Op → World × Res
       else match transfer cfg c (w.chains c) m coreErr seq with
         | .ok (ch', p) => ({ w.setChain c ch' with sent := p :: w.sent }, .sent p)
         | .error f => (w, failRes f)
+  | .sendV2 c signer client data coreErr seq =>
+    match sendPacketV2 cfg c (w.chains c) signer client data coreErr seq with
+    | .ok (ch', p) => ({ w.setChain c ch' with sent := p :: w.sent }, .sent p)
+    | .error f => (w, failRes f)
   | .recv p =>
     match recvPacket cfg p.dstChain (w.chains p.dstChain) p with
     | .ok (ch', o) =>
